@@ -353,7 +353,9 @@ func (r *Runner) stmtSync(ctx context.Context, st *syntax.Stmt) {
 	if r.exit.ok() && st.Cmd != nil {
 		r.cmd(ctx, st.Cmd)
 	}
-	if st.Negated {
+	if st.Negated && !r.exit.exiting && !r.exit.returning {
+		// "!" inverts the status of a command that completed; it must not
+		// touch the status an "exit" or "return" inside it is carrying out.
 		if r.exit.ok() {
 			r.exit.code = 1
 		} else {
